@@ -269,7 +269,11 @@ func rtNormTokens(text string) ([]string, error) {
 		if t.Type == models.TokenTypeSemicolon || t.Type == models.TokenTypeEOF || t.Type == models.TokenTypeAs {
 			continue
 		}
-		if rtIsValueToken(t.Type) {
+		if t.Type == models.TokenTypeIdentifier {
+			// a word the tokenizer hands out as identifier may still be a keyword of the statement (RESTART IDENTITY,
+			// NO ACTION, ...) that a formatter re-cases; name case itself is checked by the tree comparison (ii)
+			out = append(out, "14:"+strings.ToUpper(t.Literal))
+		} else if rtIsValueToken(t.Type) {
 			out = append(out, fmt.Sprintf("%d:%s", int(t.Type), t.Literal))
 		} else {
 			out = append(out, strings.ToUpper(t.Literal))
